@@ -19,17 +19,17 @@ const creditBound = 4095
 // windows it advertised and must give credit back.
 
 type recvCase struct {
-	Family string `json:"family"`
-	Rig    string `json:"rig"`
-	Index  int    `json:"index"`
-	Kind   string `json:"kind"` // stream-fill | conn-fill | accept | padding | closed
-	Sub    string `json:"sub,omitempty"`
-	UpConn int32  `json:"up_conn,omitempty"`
-	UpStr  int32  `json:"up_stream,omitempty"`
-	N      int    `json:"n_streams,omitempty"`
-	Pad    bool   `json:"pad,omitempty"`
-	Over   string `json:"overshoot,omitempty"` // byte | padbyte | many
-	Seed   int64  `json:"seed"`
+	Family string   `json:"family"`
+	Rig    string   `json:"rig"`
+	Index  int      `json:"index"`
+	Kind   string   `json:"kind"` // stream-fill | conn-fill | accept | padding | closed
+	Sub    string   `json:"sub,omitempty"`
+	UpConn int32    `json:"up_conn,omitempty"`
+	UpStr  int32    `json:"up_stream,omitempty"`
+	N      int      `json:"n_streams,omitempty"`
+	Pad    bool     `json:"pad,omitempty"`
+	Over   string   `json:"overshoot,omitempty"` // byte | padbyte | many
+	Seed   int64    `json:"seed"`
 	Log    []string `json:"log,omitempty"`
 }
 
@@ -77,11 +77,11 @@ func sendFlow(l *h2peer.Ledger, u *up, flow int64, pad bool, rng *rand.Rand, end
 }
 
 type rcx struct {
-	c          *recvCase
-	l          *h2peer.Ledger
-	rng        *rand.Rand
-	advConn    int64 // 65535 + the stream-0 increments received during setup
-	pre        string
+	c       *recvCase
+	l       *h2peer.Ledger
+	rng     *rand.Rand
+	advConn int64 // 65535 + the stream-0 increments received during setup
+	pre     string
 }
 
 func (r *rcx) logf(format string, a ...any) {
@@ -183,7 +183,9 @@ func (r *rcx) refused(sid uint32, q *treq) *finding {
 			close(q.hold)
 			q.hold = nil
 		}
-		<-q.done
+		if !waitCh(q.done) {
+			return &finding{class: r.pre + "client", msg: "client goroutine did not return: " + r.ended(), incon: r.ended() == ""}
+		}
 		if strings.Contains(q.bodyErr, "FLOW_CONTROL_ERROR") || strings.Contains(q.err, "FLOW_CONTROL_ERROR") {
 			run.Add("receiver-overshoot-teardown-flow-control-error", 1)
 			return nil
@@ -237,7 +239,6 @@ func runRecvS(c *recvCase) *finding {
 	keyBase := uint64(rng.Int63())
 	open := func(idx int, pl *plan) (*up, *finding) {
 		pl.Key = keyBase + uint64(idx)
-		pl.Abort = -1
 		sid, err := s.request(idx, pl, true)
 		if err != nil {
 			return nil, &finding{class: r.pre + "write", msg: err.Error(), incon: true}
@@ -253,7 +254,7 @@ func runRecvS(c *recvCase) *finding {
 		var us []*up
 		var pls []*plan
 		for i := 1; i <= n; i++ {
-			pl := &plan{Req: "all", ReadSz: 1 + rng.Intn(40000), Resp: int64(rng.Intn(100)), start: make(chan struct{})}
+			pl := &plan{Abort: -1, Req: "all", ReadSz: 1 + rng.Intn(40000), Resp: int64(rng.Intn(100)), start: make(chan struct{})}
 			u, f := open(i, pl)
 			if f != nil {
 				return f
@@ -326,7 +327,9 @@ func runRecvS(c *recvCase) *finding {
 			l.Data(u.sid, true, nil, -1)
 		}
 		for i, pl := range pls {
-			<-pl.done
+			if !waitCh(pl.done) {
+				return &finding{class: r.pre + "handler", msg: "handler did not return: " + r.ended(), incon: r.ended() == ""}
+			}
 			if pl.read != totals[i] || pl.badAt >= 0 {
 				return &finding{class: r.pre + "request-body", msg: fmt.Sprintf("stream %d: handler read %d of %d bytes, first bad offset %d, err %q", us[i].sid, pl.read, totals[i], pl.badAt, pl.rerr)}
 			}
@@ -349,7 +352,7 @@ func runRecvS(c *recvCase) *finding {
 		return r.checkBound("all request bodies consumed, all streams closed")
 
 	case "padding":
-		pl := &plan{Req: "all", ReadSz: 8192, start: make(chan struct{})}
+		pl := &plan{Abort: -1, Req: "all", ReadSz: 8192, start: make(chan struct{})}
 		u, f := open(1, pl)
 		if f != nil {
 			return f
@@ -398,7 +401,9 @@ func runRecvS(c *recvCase) *finding {
 		}
 		close(pl.start)
 		l.Data(u.sid, true, nil, -1)
-		<-pl.done
+		if !waitCh(pl.done) {
+			return &finding{class: r.pre + "handler", msg: "handler did not return: " + r.ended(), incon: r.ended() == ""}
+		}
 		if pl.read != u.off || pl.badAt >= 0 {
 			return &finding{class: r.pre + "request-body", msg: fmt.Sprintf("handler read %d of %d bytes, first bad offset %d", pl.read, u.off, pl.badAt)}
 		}
@@ -416,7 +421,7 @@ func runRecvS(c *recvCase) *finding {
 		}
 		var sentTotal int64
 		for i := 1; sentTotal < want; i++ {
-			pl := &plan{Resp: int64(rng.Intn(50))}
+			pl := &plan{Abort: -1, Resp: int64(rng.Intn(50))}
 			var u *up
 			var f *finding
 			limitStream := false
@@ -426,18 +431,22 @@ func runRecvS(c *recvCase) *finding {
 				if u, f = open(i, pl); f != nil {
 					return f
 				}
-				<-pl.done
+				if !waitCh(pl.done) {
+					return &finding{class: r.pre + "handler", msg: "handler did not return: " + r.ended(), incon: r.ended() == ""}
+				}
 				l.WaitUntil(watchdog, func() bool { return l.Stream(u.sid).ImplReset })
 			case "handler-abort":
 				pl.Req = "part"
 				pl.ReqN = 10
+				pl.Resp, pl.Abort = 100, 1
 				if u, f = open(i, pl); f != nil {
 					return f
 				}
-				pl.Resp, pl.Abort = 100, 1
-				// plan fields are read by the handler after it has read 10 bytes
 				sendFlow(l, u, 10, false, rng, false)
-				<-pl.done
+				sentTotal += 10
+				if !waitCh(pl.done) {
+					return &finding{class: r.pre + "handler", msg: "handler did not return: " + r.ended(), incon: r.ended() == ""}
+				}
 				l.WaitUntil(watchdog, func() bool { return l.Stream(u.sid).ImplReset })
 			case "peer-reset": // unread buffered data, then RST_STREAM from the peer
 				pl.Req, pl.start = "all", make(chan struct{})
@@ -455,13 +464,17 @@ func runRecvS(c *recvCase) *finding {
 				}
 				l.Reset(u.sid, http2.ErrCodeCancel)
 				close(pl.start)
-				<-pl.done
+				if !waitCh(pl.done) {
+					return &finding{class: r.pre + "handler", msg: "handler did not return: " + r.ended(), incon: r.ended() == ""}
+				}
 			case "body-closed": // handler closed the body and keeps the stream open
 				pl.Req, pl.finish = "close", make(chan struct{})
 				if u, f = open(i, pl); f != nil {
 					return f
 				}
-				<-pl.bodyClosed
+				if !waitCh(pl.bodyClosed) {
+					return &finding{class: r.pre + "handler", msg: "handler did not close the body: " + r.ended(), incon: r.ended() == ""}
+				}
 				limitStream = true
 				defer close(pl.finish)
 			case "half-closed": // END_STREAM sent, handler has not answered yet
@@ -599,7 +612,9 @@ func runRecvT(c *recvCase) *finding {
 			}
 		}
 		l.Data(u.sid, true, nil, -1)
-		<-q.done
+		if !waitCh(q.done) {
+			return &finding{class: r.pre + "client", msg: "client goroutine did not return: " + r.ended(), incon: r.ended() == ""}
+		}
 		if q.read != total || q.badAt >= 0 || q.bodyErr != "" {
 			return &finding{class: r.pre + "response-body", msg: fmt.Sprintf("client read %d of %d bytes, first bad offset %d, err %q", q.read, total, q.badAt, q.bodyErr)}
 		}
@@ -640,7 +655,9 @@ func runRecvT(c *recvCase) *finding {
 		close(q.hold)
 		q.hold = nil
 		l.Data(u.sid, true, nil, -1)
-		<-q.done
+		if !waitCh(q.done) {
+			return &finding{class: r.pre + "client", msg: "client goroutine did not return: " + r.ended(), incon: r.ended() == ""}
+		}
 		if q.read != u.off || q.badAt >= 0 {
 			return &finding{class: r.pre + "response-body", msg: fmt.Sprintf("client read %d of %d bytes, first bad offset %d", q.read, u.off, q.badAt)}
 		}
@@ -683,7 +700,9 @@ func runRecvT(c *recvCase) *finding {
 				close(q.hold)
 				q.hold = nil
 			}
-			<-q.done
+			if !waitCh(q.done) {
+				return &finding{class: r.pre + "client", msg: "client goroutine did not return: " + r.ended(), incon: r.ended() == ""}
+			}
 			// the client is done with the stream: everything from now on is discarded
 			burst := 1 + rng.Int63n(100000)
 			if _, err := sendFlow(l, u, burst, c.Pad, rng, false); err != nil {
